@@ -228,7 +228,18 @@ def weighted(kind):
     return f
 
 
+def rough(seed):
+    """SE(3) graph whose vertex quaternions are NOT unit (as after loading a file written with a few digits), some with w < 0; two of them fixed."""
+    es, vs, truth = make('SE3', seed, fixed=(1, 3))
+    for j, v in enumerate(vs):
+        if len(v.pose) == 7:
+            v.pose[3:] = v.pose[3:] * [1.0 + 3e-4, -(1.0 - 2e-4), 1.0 + 5e-5, -1.0, 1.0 - 4e-4][j % 5]
+    return es, vs, truth
+
+
 TEMPLATES = {
+    'se3rough': rough,
+    'se2pair': lambda s: make('SE2', s, n_poses=2, n_landmarks=0, closures=0, fixed=(0,)),
     # graphs a .g2o file can express (identity SE(2) offsets; SE(3) offsets registered as parameters by the session, names ending in 'reg')
     'se2plain': lambda s: make('SE2', s, file_expressible=True, fixed=(2,)),
     'se2plainc': lambda s: make('SE2', s, file_expressible=True, custom=True, fixed=(1, 3)),
